@@ -1476,7 +1476,10 @@ class Memoer(Tymee):
             if len(gram) < 4:  # assumes len(code) must be 4
                 raise hioing.MemoerError(f"Gram length={len(gram)} to short to "
                                          f"hold code.")
-            code = gram[:4].decode()  # assumes len(code) must be 2
+            try:
+                code = gram[:4].decode()  # assumes len(code) must be 4
+            except UnicodeDecodeError as ex:
+                raise hioing.MemoerError("Invalid non-text gram code.") from ex
             if self.authic and code not in self.Audex:  # must be signed
                 raise hioing.MemoerError(f"Unsigned gram {code =} when signed "
                                          f"required.")
@@ -1488,6 +1491,12 @@ class Memoer(Tymee):
             if len(gram) < (oz):  # not big enough for overhead
                 raise hioing.MemoerError(f"Not enough rx bytes for b64 gram"
                                          f" < {oz}.")
+
+            # head fields and signature if any must be Base64 text
+            if not helping.Reb64.match(bytes(gram[:bz+nz+mz+vz]) +
+                                       bytes(gram[len(gram)-az:])):
+                raise hioing.MemoerError("Invalid non-Base64 head or signature "
+                                         "in b64 gram.")
 
             gnum = bytes(gram[bz:bz+nz])  # qb64b short part of neck
             gn = helping.b64ToInt(gnum)
